@@ -158,7 +158,9 @@ def test_run(fd, data_in, repeat=1, out_size=None):
 def map_lookup(fd, key, value_size):
     import struct
     kbuf = ctypes.create_string_buffer(bytes(key), len(key))
-    vbuf = ctypes.create_string_buffer(value_size)
+    # never trust the caller's idea of the value size: the harness must not
+    # be the one that lets the kernel overrun a buffer
+    vbuf = ctypes.create_string_buffer(safe_value_size(fd, value_size))
     attr = struct.pack("IQQQ", fd, ctypes.addressof(kbuf),
                        ctypes.addressof(vbuf), 0)
     attr = ctypes.create_string_buffer(attr, len(attr))
@@ -168,7 +170,34 @@ def map_lookup(fd, key, value_size):
         if e.errno == 2:
             return None
         raise
-    return vbuf.raw
+    return vbuf.raw[:value_size]
+
+
+def map_info(fd):
+    """(type, key_size, value_size, max_entries) the kernel reports for fd
+    (BPF_OBJ_GET_INFO_BY_FD): what the map really is, whatever the code under
+    test believes"""
+    import struct
+    info = ctypes.create_string_buffer(88)
+    attr = struct.pack("IIQ", fd, 88, ctypes.addressof(info))
+    attr = ctypes.create_string_buffer(attr, len(attr))
+    _syscall(15, attr)
+    return struct.unpack_from("IIIII", info.raw)[0:1] + \
+        struct.unpack_from("IIIII", info.raw)[2:5]
+
+
+PERCPU_TYPES = (5, 6, 10, 21)
+
+
+def safe_value_size(fd, value_size):
+    """bytes the kernel may write for one lookup on this fd"""
+    try:
+        t, ks, vs, n = map_info(fd)
+    except OSError:
+        return value_size
+    if t in PERCPU_TYPES:
+        return max(value_size, (vs + 7) // 8 * 8 * possible_cpus())
+    return max(value_size, vs)
 
 
 def map_update(fd, key, value, flags=0):
